@@ -367,8 +367,34 @@ def gen_iter_plan(rng, mode="C08"):
     for tid, _ in live:
         if rng.random() < 0.8:
             ops.append({"op": "drain", "task": tid})
+    share_ranges(ops, pool)
+    if mode == "C08":
+        ops[:] = insert_set_order(ops, pool)
     knobs["nontrivial_hint"] = hint
     return {"knobs": knobs, "ops": ops}
+
+
+def share_ranges(ops, pool):
+    """Post-processing (own generator, the draws of the plan are untouched): some iterations of one orbit are handed the very same
+    DateRange object (dates=) as an earlier iteration of that orbit."""
+    import random
+
+    r = random.Random("share:" + repr([(o.get("task"), o.get("obj")) for o in ops if o["op"] == "start"]) + repr(len(ops)))
+    first = {}
+    for o in ops:
+        if o["op"] != "start" or pool[o["obj"] % len(pool)]["kind"] == "ephem":
+            continue
+        c = o["call"]
+        j = o["obj"] % len(pool)
+        if j in first and r.random() < 0.45 and c["call"] in ("iter", "ephemeris"):
+            src = first[j]
+            for k_ in ("start_ms", "stop_ms", "stop_abs", "step_ms", "dates", "dates_as_gen", "daterange"):
+                c.pop(k_, None)
+            c["daterange"] = list(src["daterange"])
+            c["share_range"] = j
+            src["share_range"] = j
+        elif c.get("daterange") is not None and j not in first:
+            first[j] = c
 
 
 def simplify_iter(plan):
@@ -388,3 +414,23 @@ def simplify_iter(plan):
         used = {j for o in ops if o["op"] == "start" for j in o["call"].get("listeners", [])}
         if not used:
             yield dict(plan, knobs=dict(kn, listeners=[]))
+
+
+def insert_set_order(ops, pool):
+    """Post-processing (own generator): the order of a Lagrange-interpolated ephemeris of the pool is changed somewhere in the history,
+    and the ephemeris is used again right afterwards."""
+    import random
+
+    eph = [i for i, sp in enumerate(pool) if sp["kind"] == "ephem" and sp.get("interp") != "linear"]
+    if not eph:
+        return ops
+    r = random.Random("order:" + repr(len(ops)) + repr([sp.get("dur_s") for sp in pool]))
+    if r.random() < 0.55:
+        return ops
+    i = r.choice(eph)
+    npts = int(pool[i]["dur_s"] // pool[i]["step_s"]) + 1
+    order = r.choice([2, 3, 4, 5, 6, 7, 9, 10, 12, max(2, npts), max(2, npts - 1)])
+    at = r.randint(1, len(ops))
+    dur = int(pool[i]["dur_s"] * 1000)
+    extra = [{"op": "set_order", "obj": i, "order": order}, {"op": "propagate", "obj": i, "ms": int(r.uniform(0, 1) * dur / 250) * 250, "as_td": False}]
+    return ops[:at] + extra + ops[at:]
